@@ -899,6 +899,41 @@ pub fn boundary(ctx: &Ctx, rep: &mut Report) {
             }
         }
     }
+    // EXACT-FIT signatures with a quiet tail: s2 fills its buffer to the very last bit (no
+    // padding) and its last coefficients are all below 128 (nine bits each); the unary mass sits
+    // in front (coefficients in [128, 255]); norm well inside the bound: Algorithm 16 accepts
+    {
+        let mut rng = rng_for(ctx.seed, "c02-exact-fit-tail");
+        for rep_i in 0..ctx.sz(12, 200) {
+            for (n, l) in [(512usize, 625usize), (1024, 1239)] {
+                let extra = 8 * l - 9 * n; // coefficients that need one more bit
+                let tail = [8usize, 9, 16, 40][rep_i % 4];
+                let mut s2: Vec<i64> = (0..n).map(|_| rng.gen_range(-100i64..=100)).collect();
+                // `extra` positions among the first n - tail get a magnitude in [128, 255]
+                let mut idx: Vec<usize> = (0..n - tail).collect();
+                for k in (1..idx.len()).rev() {
+                    let j = rng.gen_range(0..=k);
+                    idx.swap(k, j);
+                }
+                for &i in idx.iter().take(extra) {
+                    s2[i] = rng.gen_range(128i64..=255) * if rng.gen() { 1 } else { -1 };
+                }
+                if spec::compressed_bits(&s2) != 8 * l {
+                    continue;
+                }
+                let s1: Vec<i64> = (0..n).map(|_| rng.gen_range(-3i64..=3)).collect();
+                if let Some(c) = crate::gen::craft_from(n, s1, s2, &mut rng) {
+                    let body = spec::compress(&c.s2, l).unwrap();
+                    let pkb = spec::pk_encode(&c.h);
+                    let out = if n == 512 { check_triple::<F512>("exact-fit-quiet-tail", &c.msg, &build_sig::<F512>(&c.salt, &body), &pkb, rep) } else { check_triple::<F1024>("exact-fit-quiet-tail", &c.msg, &build_sig::<F1024>(&c.salt, &body), &pkb, rep) };
+                    if matches!(out, Some((true, _))) {
+                        rep.count("exact_fit_quiet_tail_triples", 1);
+                    }
+                }
+            }
+        }
+        rep.require("exact_fit_quiet_tail_triples", 8);
+    }
     interleaved(ctx, rep);
     related_variants(ctx, rep);
     // verify while a thread is being torn down (see C13): crafted triples at the bound
